@@ -27,7 +27,7 @@ TIE = {
     "exhaust": {
         "gen": ["ExhaustAst.v", "Exhaust.v"],
         "vo": "proofs/GenExhaust_equiv.vo",
-        "theorems": ["gen_exhaust_equiv", "gen_exhaust_flag_sound", "gen_exhaust_sound"],
+        "theorems": ["gen_exhaust_equiv", "gen_exhaust_flag_sound", "gen_exhaust_flag_complete", "gen_exhaust_sound"],
         "source": "iteration_graph/identifiable_expression/{ast,_exhaust_tensor}.py",
         "model": "coq/model/Exhaust.v (exhaust_aux)",
     },
@@ -56,7 +56,8 @@ TIE = {
     "index_participants": {
         "gen": ["Deparse.v", "Desugar.v"],
         "vo": "proofs/GenIndexParticipants_equiv.vo",
-        "theorems": ["gen_index_participants_equiv", "gen_index_names_summary", "gen_index_participants_keys_NoDup"],
+        "theorems": ["gen_index_participants_equiv", "gen_index_names_summary", "gen_index_participants_keys_NoDup",
+                     "gen_assignment_index_participants_equiv", "gen_assignment_index_names_summary"],
         "source": "expression/ast.py (index_participants methods, merge_index_participants)",
         "model": "coq/model/ExprAst.v (index_participants)",
     },
@@ -85,6 +86,9 @@ def _parse_nats(out: str):
 
 
 def run_tie(chk, names, n_cases: int | None = None) -> dict:
+    unknown = [n for n in names if n not in TIE]
+    if unknown:  # fail closed on a misspelt target
+        chk.broken.append({"kind": "harness", "what": f"run_tie: unknown target(s) {unknown}; known: {sorted(TIE)}"})
     names = [n for n in names if n in TIE]
     res = {n: {"regen": False, "proof": False, "selfcheck": False} for n in names}
     if not names:
